@@ -646,6 +646,15 @@ where
         None => vec![],
     };
     let is_script = policy.starts_with("script:");
+    // chase policy: "chase:<reader>:<writer>" = an adversary for wait-freedom (C08): the reader runs
+    // until it has just read a storage location, then the writer runs until it has completed a
+    // command that wrote the storage, and so on.
+    let chase: Option<(usize, usize)> = policy.strip_prefix("chase:").map(|sp| {
+        let (a, b) = sp.split_once(':').expect("chase:<reader>:<writer>");
+        (a.parse().unwrap(), b.parse().unwrap())
+    });
+    let mut chase_writer = false;
+    let mut chase_saw_write = false;
     let mut sidx = 0usize;
     let mut sused = 0u64;
     let mut solo_cmd: Option<usize> = None;
@@ -734,13 +743,18 @@ where
                                     });
                                 }
                                 if done || !enabled.contains(&v) {
-                                    if !done {
+                                    // A thread inside an operation is always enabled (every atomic access
+                                    // is); it can only be disabled at a command boundary, waiting for a
+                                    // handle another thread of the PROGRAM produces or for a join: that is
+                                    // a dependency of the test program, not the library waiting.
+                                    let at_cmd = matches!(&w.parked[v], Some(Pending::Cmd(_)));
+                                    if !done && !at_cmd {
                                         w.log.push(format!(". SOLO-BLOCKED thread {} cannot proceed alone", v));
                                     } else {
                                         w.log.push(". SOLO-DONE".into());
                                     }
                                     drop(g);
-                                    dump_and_exit(if done { 0 } else { 5 });
+                                    dump_and_exit(if done || at_cmd { 0 } else { 5 });
                                 }
                                 solo_steps += 1;
                                 if solo_steps > 3000 {
@@ -751,6 +765,37 @@ where
                                 v
                             }
                         }
+                    }
+                    _ if chase.is_some() => {
+                        let (r, wr) = chase.unwrap();
+                        let is_storage = |l: &str, me: usize, ops: &[&str]| {
+                            let f: Vec<&str> = l.split_whitespace().collect();
+                            f.len() > 3 && f[0] == me.to_string() && f[1] == "ACC" && f[2].starts_with('S')
+                                && f[2][1..].chars().all(|c| c.is_ascii_digit()) && ops.contains(&f[3])
+                        };
+                        if !chase_writer {
+                            // did the reader just read a storage location?
+                            let last_r = w.log.iter().rev().find(|l| l.starts_with(&format!("{} ", r)));
+                            if let Some(l) = last_r {
+                                if is_storage(l, r, &["load"]) && enabled.contains(&wr) {
+                                    chase_writer = true;
+                                    chase_saw_write = false;
+                                }
+                            }
+                        } else {
+                            let last_w = w.log.iter().rev().find(|l| l.starts_with(&format!("{} ", wr)));
+                            if let Some(l) = last_w {
+                                if is_storage(l, wr, &["swap", "cas", "casw"]) {
+                                    chase_saw_write = true;
+                                }
+                            }
+                            let at_boundary = matches!(&w.parked[wr], Some(Pending::Cmd(_)) | Some(Pending::Exit) | None);
+                            if (chase_saw_write && at_boundary) || !enabled.contains(&wr) {
+                                chase_writer = false;
+                            }
+                        }
+                        let want = if chase_writer { wr } else { r };
+                        if enabled.contains(&want) { want } else if enabled.contains(&wr) { wr } else { enabled[0] }
                     }
                     "pct" => {
                         if step_no as u64 % change_every == 0 {
